@@ -37,9 +37,16 @@ func VerifH_C03_icmp() {
 		verifAssume(proto != 4 && proto != 41 && proto != 94)
 		verifCover("other-protocol")
 	}
-	passB := c03RunBPF(prog, b)
-	perr := pp.ProcessPacketData(b, nil)
-	passR := perr == nil && len(res.got) == 1
+	captured, passB := c03Capture(prog, b) // the kernel cuts accepted frames to the filter's snap length
+	passR := false
+	if passB {
+		perr := pp.ProcessPacketData(captured, nil)
+		passR = perr == nil && len(res.got) == 1
+	} else {
+		// what the processor would do is still examined: the filter is an optimisation, not the oracle
+		perr := pp.ProcessPacketData(b, nil)
+		passR = perr == nil && len(res.got) == 1
+	}
 	verifAssert(len(res.got) <= 1, "more than one record for one frame")
 	shape := false
 	if isICMP {
